@@ -99,4 +99,84 @@ theorem C12_alias_string (svcFile raw : Str) (h : aliasOK svcFile (cleaned raw) 
     isAbs (cleaned raw) = false ∧ ∀ part ∈ splitSlash (cleaned raw), isNormal part = true :=
   alias_string svcFile raw h
 
+/-! ### carrying the plan out: every link on its own -/
+
+/-- a link that cannot be made (a parent on its path is the service file or an earlier link) leaves everything as it was -/
+theorem C12_blocked_link_no_effect (svcFile : Str) (st : Made) (k : Str) (h : blocked svcFile st k = true) :
+    carryStep svcFile st k = st := by
+  simp [carryStep, h]
+
+/-- … so the plan with it and the plan without it create exactly the same links and directories: the links after it are made as if it
+    had not been asked for (the first failure does not stop the rest) -/
+theorem C12_failed_link_does_not_stop_the_rest (svcFile : Str) (before after : List Str) (k : Str)
+    (h : blocked svcFile (carryOut svcFile before) k = true) :
+    carryOut svcFile (before ++ k :: after) = carryOut svcFile (before ++ after) := by
+  unfold carryOut at h ⊢
+  rw [List.foldl_append, List.foldl_append, List.foldl_cons, C12_blocked_link_no_effect svcFile _ k h]
+
+/-- what was made stays: a later link (made or not) never removes an earlier one -/
+theorem C12_links_stay (svcFile : Str) (st : Made) (k l : Str) (h : l ∈ st.links) : l ∈ (carryStep svcFile st k).links := by
+  unfold carryStep
+  split
+  · exact h
+  · split
+    · exact h
+    · simp only
+      split
+      · exact h
+      · exact List.mem_append_left _ h
+
+theorem C12_links_stay_all (svcFile : Str) (st : Made) (ks : List Str) (l : Str) (h : l ∈ st.links) :
+    l ∈ (ks.foldl (carryStep svcFile) st).links := by
+  induction ks generalizing st with
+  | nil => exact h
+  | cons k ks ih => exact ih _ (C12_links_stay svcFile st k l h)
+
+/-- only links of the plan are made -/
+theorem C12_made_subset_plan (svcFile : Str) (plan : List Str) (st : Made) (hst : ∀ l ∈ st.links, l ∈ plan) :
+    ∀ l ∈ (plan.foldl (carryStep svcFile) st).links, l ∈ plan := by
+  suffices H : ∀ (ks : List Str) (st : Made), (∀ l ∈ st.links, l ∈ plan) → (∀ k ∈ ks, k ∈ plan) →
+      ∀ l ∈ (ks.foldl (carryStep svcFile) st).links, l ∈ plan from H plan st hst (fun k hk => hk)
+  intro ks
+  induction ks with
+  | nil => intro st h _; exact h
+  | cons k ks ih =>
+    intro st h hk
+    apply ih _ _ (fun x hx => hk x (by simp [hx]))
+    intro l hl
+    unfold carryStep at hl
+    split at hl
+    · exact h l hl
+    · split at hl
+      · exact h l hl
+      · simp only at hl
+        split at hl
+        · exact h l hl
+        · rcases List.mem_append.mp hl with h1 | h1
+          · exact h l h1
+          · simp only [List.mem_singleton] at h1
+            subst h1; exact hk l (by simp)
+
+/-- a link directly in the output directory (an alias without '/') is never blocked: it is made unless a directory has its name -/
+theorem C12_top_level_never_blocked (svcFile : Str) (st : Made) (k : Str) (h : k.contains '/' = false) :
+    blocked svcFile st k = false := by
+  have hp : parentsOf k = [] := by
+    unfold parentsOf
+    rw [List.filterMap_eq_nil_iff]
+    intro i hi
+    have hlt : i < k.length := by simpa using hi
+    have hne : k[i]? ≠ some '/' := by
+      intro e
+      have hm : '/' ∈ k := by
+        have := List.mem_of_getElem? e
+        exact this
+      have : k.contains '/' = true := by simpa using hm
+      rw [h] at this; exact absurd this (by decide)
+    have : (k[i]? == some '/') = false := by simpa using hne
+    simp [this]
+  simp [blocked, hp]
+
+example : (carryOut (s "a.service") [s "a.service/x.service", s "b.service", s "b.service/y", s "t.wants/a.service", s "t.wants"]).links
+    = [s "b.service", s "t.wants/a.service"] := by decide
+
 end Inst
